@@ -9,8 +9,9 @@ and the Gen file is removed):
       with anyio.fail_after(<g1>):  await self.process.wait()
       self.process.kill()
       with anyio.fail_after(<g2>):  await self.process.wait()
-  (the second half nested in the `except TimeoutError` handler of the first wait);
-* <g1>, <g2> are numeric literals, positive multiples of 10 ms; they are emitted in ticks of 10 ms
+  (the second half nested in the `except TimeoutError` handler of the first wait, or - flattened - after a
+  `try: <first wait> except TimeoutError: <falls through> else: return`);
+* <g1>, <g2> are numeric literals or module-level names bound once to one, positive multiples of 10 ms; they are emitted in ticks of 10 ms
   as `term_grace_ticks` and `kill_grace_ticks`.
 
 Everything else about the shutdown protocol (what runs under cancellation, what is closed) is
@@ -25,6 +26,9 @@ import translate as T
 PATH = "transports/stdio/stdio_client.py"
 
 
+TREE = None
+
+
 def _events(node, out):
     """Source-order walk recording the calls the protocol consists of."""
     if isinstance(node, (ast.With, ast.AsyncWith)):
@@ -36,10 +40,11 @@ def _events(node, out):
                     raise T.TranslateError("_terminate_process: unexpected timeout construct", c)
                 if len(c.args) != 1 or c.keywords:
                     raise T.TranslateError("_terminate_process: fail_after takes one positional literal", c)
-                a = c.args[0]
-                if not isinstance(a, ast.Constant) or isinstance(a.value, bool) or not isinstance(a.value, (int, float)):
-                    raise T.TranslateError("_terminate_process: grace period is not a numeric literal", c)
-                out.append(("grace", a.value, c))
+                v = T.numeric_value(c.args[0], TREE)
+                if v is None:
+                    raise T.TranslateError("_terminate_process: grace period is not a numeric literal (or a module constant "
+                                           "bound once to one)", c)
+                out.append(("grace", v, c))
             else:
                 _events(c, out)
         for st in node.body:
@@ -67,7 +72,8 @@ def _ticks(v, node):
 
 
 def gen_shutdown() -> str:
-    tree = T.read(PATH)
+    global TREE
+    tree = TREE = T.read(PATH)
     classes = [n for n in tree.body if isinstance(n, ast.ClassDef) and n.name == "StdioClient"]
     if len(classes) != 1:
         raise T.TranslateError("expected exactly one class StdioClient")
@@ -98,6 +104,24 @@ def gen_shutdown() -> str:
                 names = [e.id for e in node.type.elts if isinstance(e, ast.Name)]
             if "TimeoutError" in names:
                 in_handler = True
+    if not in_handler:
+        # the flattened form: `try: <first wait> except TimeoutError: <no exit> else: return` and the kill half AFTER that try
+        first_wait = ev[2][2]
+        for node in ast.walk(fn):
+            body = getattr(node, "body", None)
+            if not isinstance(body, list):
+                continue
+            for blk in (body, getattr(node, "orelse", None) or [], getattr(node, "finalbody", None) or []):
+                for i, st in enumerate(blk):
+                    if isinstance(st, ast.Try) and any(n is first_wait for b in st.body for n in ast.walk(b)) \
+                            and not any(n is kill_node for n in ast.walk(st)):
+                        handlers_ok = len(st.handlers) == 1 and isinstance(st.handlers[0].type, ast.Name) \
+                            and st.handlers[0].type.id == "TimeoutError" \
+                            and not any(isinstance(n, (ast.Return, ast.Raise, ast.Continue, ast.Break)) for n in ast.walk(st.handlers[0]))
+                        else_returns = bool(st.orelse) and isinstance(st.orelse[-1], ast.Return) and not st.finalbody
+                        follows = any(n is kill_node for later in blk[i + 1:] for n in ast.walk(later))
+                        if handlers_ok and else_returns and follows:
+                            in_handler = True
     if not in_handler:
         raise T.TranslateError("_terminate_process: kill() is not inside `except TimeoutError`", kill_node)
     g1 = _ticks(ev[1][1], ev[1][2])
